@@ -59,7 +59,9 @@ def norm_trace(res, inst, settings):
     evs = [norm_event(e) for e in res["events"] if e["a"] in SEAM]
     job = res["job"]
     rp = dict(inst.params)
-    rp.update(job.get("run_params", {}))
+    if inst.lazy:
+        # (an eagerly parsed graph was composed before the run: run parameters do not reach its nodes)
+        rp.update(job.get("run_params", {}))
     replaying = bool(rp.get("replay"))
     try:
         maxtries = int(float(rp.get("max_tries", 2 if replaying else 1)))
